@@ -65,8 +65,12 @@ package command
 
 // ---- the commands
 // what exec needs from the function that turns the new transaction into a log: a fresh log without key
+// (and the log it builds carries exactly that transaction: C09)
+//@ def isTxLog(d) = typeis(d, "ledger.NewTransactionLogPayload") || typeis(d, "ledger.RevertedTransactionLogPayload")
+//@ def txOfLog(d) = ite(typeis(d, "ledger.NewTransactionLogPayload"), as(d, "ledger.NewTransactionLogPayload").Transaction, as(d, "ledger.RevertedTransactionLogPayload").RevertTransaction)
 //@ spec LogComputer(tx, accountMetadata)
 //@   ensures ret != nil && ret.IdempotencyKey == ""
+//@   ensures isTxLog(ret.Data) && txOfLog(ret.Data) == tx // C09
 //@   modifies ledger.Log.*
 
 //@ func (*command.Commander).exec
@@ -79,7 +83,11 @@ package command
 //@   ensures err == nil && !parameters.DryRun ==> enqueued <= old(enqueued) + 1      // C06
 //@   ensures parameters.DryRun ==> enqueued == old(enqueued) && commander.lastLog == old(commander.lastLog)   // C14
 //@   ensures parameters.DryRun ==> commander.lastTXID == old(commander.lastTXID)                              // C14: no consumed transaction id
-//@   property C02 C06 C07 C11 C14
+// C09: the committed transaction is the machine's result, with the reference and (when given) the timestamp of the request
+// (curLogFresh: this request appended a log; otherwise the stored result of an earlier request with the same idempotency key is returned)
+//@   ensures err == nil && curLogFresh ==> isTxLog(ret0.Data) && txOfLog(ret0.Data) != nil && txOfLog(ret0.Data).Reference == script.Reference && (!lib("(time.Time).IsZero", script.Timestamp.Time) ==> txOfLog(ret0.Data).Timestamp == script.Timestamp) // C09
+//@   ensures err == nil && curLogFresh ==> lastVMResult != nil && txOfLog(ret0.Data).Postings == lastVMResult.Postings && txOfLog(ret0.Data).Metadata == lastVMResult.Metadata // C09
+//@   property C02 C06 C07 C11 C14 C09
 
 //@ func (*command.Commander).CreateTransaction
 //@   requires commander != nil && commander.lastTXID != nil && idle() && headOK(commander)
